@@ -16,6 +16,7 @@ import (
 	"runtime/debug"
 	"strings"
 	"sync"
+	"sync/atomic"
 	"syscall"
 	"testing"
 	"testing/synctest"
@@ -47,6 +48,7 @@ type Result struct {
 	Events  []Event
 	Sig     string // interleaving signature
 	Run     *Run
+	CPUNS   int64 // engine B: user+system time of the process tree
 	WallNS  int64
 	StderrW *stampWriter
 	// StdoutFailed: the injected stdout write error was hit
@@ -170,11 +172,29 @@ func EnvFor(site *Site, inv *Invocation) []string {
 
 const watchdog = time.Hour
 
+// runSeq is odd while an in-process run is under way; runScenario is the
+// scenario of that run. The fake-time watchdog cannot see a goroutine that
+// spins without ever blocking (fake time only advances when every goroutine
+// of the bubble is blocked), so the worker also watches these from outside
+// the bubble on the real clock.
+// ProcessStdout is the worker's own stdout; os.Stdout is swapped for a
+// capture file while git-sizer runs in-process.
+var ProcessStdout = os.Stdout
+
+var (
+	runSeq      atomic.Uint64
+	runScenario atomic.Pointer[Scenario]
+)
+
 // RunA executes the scenario in-process. The site must be the
 // materialised sc.World.
 func RunA(t *testing.T, h Hooks, sc *Scenario, site *Site) *Result {
 	runMu.Lock()
 	defer runMu.Unlock()
+	// bracket the run for the real-time livelock monitor (worker.go)
+	runScenario.Store(sc)
+	runSeq.Add(1)
+	defer runSeq.Add(1)
 
 	res := &Result{}
 	run := &Run{sc: sc, w: sc.World, site: site}
